@@ -1066,10 +1066,16 @@ class Interpreter(InterpreterBase, HoldableObject):
             if ast:
                 self._save_ast(subdir, ast)
 
-            subi = Interpreter(new_build, self.backend, subp_name, subdir, self.subproject_dir,
-                               default_options, ast=ast, relaxations=relaxations,
-                               user_defined_options=self.user_defined_options,
-                               cargo=cargo)
+            try:
+                subi = Interpreter(new_build, self.backend, subp_name, subdir, self.subproject_dir,
+                                   default_options, ast=ast, relaxations=relaxations,
+                                   user_defined_options=self.user_defined_options,
+                                   cargo=cargo)
+            except Exception:
+                if ast is None:
+                    # Its build file has been read, even if it does not parse.
+                    self.build_def_files.add(os.path.join(subdir, environment.build_filename))
+                raise
             # Those lists are shared by all interpreters. That means that
             # even if the subproject fails, any modification that the subproject
             # made to those lists will affect the parent project.
